@@ -336,17 +336,25 @@ class Engine:
                     R.add(bn); changed = True
         info = {}
         for bn in D:
-            seen = set(); stk = [bn]; tin = None
+            seen = set(); stk = [bn]; tin = None; needs_cut = False
             while stk:
                 x = stk.pop()
                 if x in seen: continue
                 seen.add(x)
                 for i in f.blocks[x].instrs:
-                    if i.op in ('call', 'invoke') and i.ops[0].k == 'global' and i.ops[0].v == '@__cxa_throw':
-                        a = i.ops[2]
-                        tin = a.ops[0].v if a.k == 'cexpr' else a.v
+                    if i.op in ('call', 'invoke') and i.ops[0].k == 'global':
+                        nm = i.ops[0].v
+                        if nm == '@__cxa_throw':
+                            a = i.ops[2]
+                            tin = a.ops[0].v if a.k == 'cexpr' else a.v
+                        elif nm not in s.mod.funcs and not s.models.known(nm):
+                            needs_cut = True      # string/stream formatting of the message: outside every claim
+                        elif nm in s.mod.funcs and ('basic_string' in nm or 'basic_stringstream' in nm or 'basic_ostream' in nm or 'ios_base' in nm):
+                            needs_cut = True
                 stk += succ[x]
-            info[bn] = tin
+            # a region that only throws (and may have side effects of its own) is executed as it is
+            if needs_cut:
+                info[bn] = tin
         s.doomed[f.name] = info
         return info
 
